@@ -54,9 +54,17 @@ def _kv(fields):
     return d
 
 
-def run_script(hx, src, tag, args=(), timeout=900, watchdog=240):
+import threading
+_seq = [0]
+_seq_lock = threading.Lock()
+
+
+def run_script(hx, src, tag, args=(), timeout=3000, watchdog=1200):
     os.makedirs(SCRATCH, exist_ok=True)
-    p = os.path.join(SCRATCH, "%d-%s.janet" % (os.getpid(), tag))
+    with _seq_lock:
+        _seq[0] += 1
+        k = _seq[0]
+    p = os.path.join(SCRATCH, "%d-%d-%s.janet" % (os.getpid(), k, tag))
     with open(p, "w") as f:
         f.write(src)
     try:
@@ -143,6 +151,8 @@ def judge_mix(expect, chosen, rc, out, err):
             probs.append(("hang-after-all-work" + ("" if missing else ":all-completions-logged"),
                           "nothing is outstanding, runnable or timed (independent ground truth) but janet_loop_done() is false - the loop blocks for ever: %s; "
                           "tasks not completed: %s" % ([l for l in out.splitlines() if l.startswith("IDLE-NOT-DONE")][:1], missing)))
+        elif "STALE-TIMERS-BLOCK" in out:
+            probs.append(("stale-timers-keep-loop-alive", "%s; tasks not completed: %s" % ([l for l in out.splitlines() if l.startswith("STALE-TIMERS-BLOCK")][:1], missing)))
         elif "WATCHDOG" in out or rc is None:
             if not missing:
                 probs.append(("hang-after-all-work", "all %d expected completions were logged but the event loop did not return: %s"
@@ -171,7 +181,7 @@ def judge_mix(expect, chosen, rc, out, err):
 
 def run_mix(hx, rng, ntasks, idx, kinds=None):
     src, expect, chosen = c20gen.mix_script(rng, ntasks, kinds)
-    rc, out, err = run_script(hx, src, "mix-%d" % idx, args=("--snap", "--events"), timeout=300, watchdog=100)
+    rc, out, err = run_script(hx, src, "mix-%d" % idx, args=("--snap", "--events"), timeout=1500, watchdog=600)
     probs, info = judge_mix(expect, chosen, rc, out, err)
     return {"idx": idx, "src": src, "expect": expect, "chosen": chosen, "probs": probs, "info": info, "out": out, "rc": rc, "err": err[-2000:]}
 
@@ -290,10 +300,12 @@ def run(ctx):
     for name in names:
         cost = c20gen.CYCLES[name][0]
         lo, hi = c20gen.COST_N[cost]
-        n = lo if quick else hi
-        # vary N a little with the seed so that different seeds probe different plateaus
-        n = n + ctx.rng.fork("n/" + name).below(max(1, n // 4))
-        jobs.append((name, ctx.rng.fork("cycle/" + name), n))
+        # every cycle at several repeat counts across the range 50..5000 (quick: 50..~600); N varies a little with the seed
+        sizes = [50, lo] if quick else [50, lo, hi]
+        for si, n in enumerate(sizes):
+            n = n + ctx.rng.fork("n/%s/%d" % (name, si)).below(max(1, n // 4))
+            jobs.append((name, ctx.rng.fork("cycle/%s/%d" % (name, si)), n))
+    jobs.sort(key=lambda j: -j[2])
     ctx.say("cycles: %d kinds, N in [%d, %d]" % (len(jobs), min(j[2] for j in jobs), max(j[2] for j in jobs)))
     with cf.ThreadPoolExecutor(14) as ex:
         cyc = list(ex.map(lambda j: run_cycle(hx, *j), jobs))
@@ -310,7 +322,7 @@ def run(ctx):
                             "measures": v["measures"], "leaks": v["leaks"], "fail": v["fail"]}, what=what)
 
     # ---------------- (E2) task mixes: termination oracle + per-step ground truth.  Corpus scenarios run first.
-    nmix = 48 if quick else 600
+    nmix = 240 if quick else 6000
     mjobs = []
     cdir = os.path.join(VERIF, "corpus", "C20")
     corpus = []
@@ -323,7 +335,7 @@ def run(ctx):
         mjobs.append((r, r.range(1, 4) if i % 4 == 0 else r.range(4, 14), i))
     def run_corpus(item):
         fn, c = item
-        rc, out, err = run_script(hx, c["source"], "corpus-" + fn, args=("--snap", "--events"), timeout=300, watchdog=100)
+        rc, out, err = run_script(hx, c["source"], "corpus-" + fn, args=("--snap", "--events"), timeout=1500, watchdog=600)
         expect = {int(k): v for k, v in c["expect"].items()}
         probs, info = judge_mix(expect, c["tasks"], rc, out, err)
         return {"idx": "corpus/" + fn, "src": c["source"], "expect": expect, "chosen": c["tasks"], "probs": probs, "info": info, "out": out,
@@ -391,12 +403,12 @@ def run(ctx):
                       what="no longer shown to hold: " + "; ".join(broken)[:600])
     cov = {
         "evaluations": sum(v["N"] * 2 + v["params"]["warm"] for v in cyc) + total_steps,
-        "distinct_nontrivial": len(cyc) + len(set(m["src"] for m in mixes)),
+        "distinct_nontrivial": len(set(v["src"] for v in cyc)) + len(set(m["src"] for m in mixes)),
         "rule": "cycle = one generated operation cycle repeated warm+N+N times with three forced-collection plateaus (evaluations counts "
                 "cycle executions); mix = generated program of 1..14 tasks with a known completion set, judged at every janet_loop1 step "
                 "(evaluations counts steps); non-trivial = distinct cycle kind / distinct mix source",
         "samples": [cyc[0]["src"][-300:], mixes[0]["src"][-600:]] if cyc and mixes else [],
-        "cycle_kinds": {v["name"]: v["N"] for v in cyc},
+        "cycle_kinds": {name: sorted(v["N"] for v in cyc if v["name"] == name) for name in names},
         "cycle_leaks": {v["name"]: sorted(v["leaks"]) or v["fail"] for v in leaking},
         "mixes": len(mixes), "mix_steps": total_steps, "mix_task_kinds": kinds_hit,
         "correspondence_events": corr_events, "correspondence_steps_compared": corr_snaps, "correspondence_mixes_differing": len(corr_diffs),
@@ -423,7 +435,7 @@ def replay(ctx, path):
         if v["leaks"] or v["fail"]:
             ctx.violation(r["signature"], dict(r, reproduced=True), what="replay reproduces: %s %s" % (v["leaks"], v["fail"]))
     elif r.get("kind") == "mix":
-        rc, out, err = run_script(hx, r["source"], "replay", args=("--snap", "--events"), timeout=300, watchdog=100)
+        rc, out, err = run_script(hx, r["source"], "replay", args=("--snap", "--events"), timeout=1500, watchdog=600)
         probs, info = judge_mix({int(k): v for k, v in r["expect"].items()}, r["tasks"], rc, out, err)
         print(out[-3000:])
         for sig, what in probs:
